@@ -173,6 +173,21 @@ try:
     alm_lib = Alignments(lex, ref='scaid')
     alm_lib.align(method='library', iteration=True, swap_check=True)
     out['alignment:library+iteration+swap_check'] = dig([list(alm_lib[k, 'alignment']) for k in sorted(alm_lib._data)])
+    # an object that has been aligned before, aligned again with other settings: the result is the one a fresh object gives for them
+    try:
+        rows_it = [list(alm_it[k, 'alignment']) for k in sorted(alm_it._data)]
+        alm.align(iteration=True)
+        out['repeat:align(iteration=True) after align() on the same object == fresh object'] = rows_it == [list(alm[k, 'alignment']) for k in sorted(alm._data)]
+        alm_d = Alignments(lex, ref='scaid')
+        alm_d.align(mode='dialign')
+        alm.align(mode='dialign')
+        out['repeat:align(mode=dialign) after two other align() calls on the same object == fresh object'] = \
+            [list(alm_d[k, 'alignment']) for k in sorted(alm_d._data)] == [list(alm[k, 'alignment']) for k in sorted(alm._data)]
+        alm.align(method='library', iteration=True, swap_check=True)
+        out['repeat:align(library, iteration, swap_check) after other align() calls on the same object == fresh object'] = \
+            [list(alm_lib[k, 'alignment']) for k in sorted(alm_lib._data)] == [list(alm[k, 'alignment']) for k in sorted(alm._data)]
+    except Exception as ex:  # noqa
+        out['note:alignment history raised ' + type(ex).__name__] = True
     # multiple alignment with every kind of iterative refinement on word sets drawn from the wordlist itself and from a fixed pool
     from lingpy.align.multiple import Multiple
     pool = sorted(set(str(lex[k, 'ipa']) for k in lex._data)) + ['tʰɔxtər', 'dɔːtər', 'dɔxtər', 'dotər', 'hant', 'hænd', 'hɑnt', 'hand', 'ʃtɛrn',
